@@ -298,7 +298,7 @@ def make_eval(exes):
                     if all(again):
                         fail = {"shape": case["shape"], "n": case["n"], "scheds": [list(s)], "est": est,
                                 "variant": case["variant"], "sched": ss,
-                                "what": "no exit within 120 s in 3 consecutive free-running runs (hang)"}
+                                "what": "no exit within 120 s in 3 consecutive free-running runs (hang)", "hang": True}
                         break
                 if r.timeout:
                     stats.inconclusive += 1
@@ -338,7 +338,7 @@ def late_close(argv, data, env0, expect, case, stats):
     if r.timeout:
         if once().timeout and once().timeout:
             return {"shape": case["shape"], "n": case["n"], "scheds": [], "est": 0, "variant": case["variant"],
-                    "sched": "late-close", "what": "no exit within 40 s in 3 consecutive runs: the input pipe was closed 250 ms "
+                    "sched": "late-close", "hang": True, "what": "no exit within 40 s in 3 consecutive runs: the input pipe was closed 250 ms "
                     "after the last byte (lost wake-up at end of input?)"}
         stats.inconclusive += 1
         return None
